@@ -16,7 +16,7 @@ T = {
  "C08": ("exploration", "exhaustive enumeration of the GT alphabet, each string in its own one-record run through the VCF and BCF paths, classified by the reference table", "7/C08"),
  "C09": ("exploration", "reference-model + metamorphic monitor: permutations of columns / list entries / labels, --samples vs --samples-file", "7/C09"),
  "C10": ("fault_enumeration", "conservation / exactly-once monitor over the program's own skip log; failing record placed at every position of the stream in every container", "7/C10"),
- "C11": ("exploration", "replica monitor: long-lived site::Reader vs a fresh reader per record over random histories; concatenation/permutation at the CLI", "7/C11"),
+ "C11": ("exploration", "replica monitor: long-lived site::Reader vs a fresh reader per record over random, cohort and swing histories; concatenation/permutation at the CLI", "7/C11"),
  "C12": ("exploration", "differential monitor: byte equality across container x transport x threads x BGZF layout x repetition; ThreadSanitizer binary and Miri many-seeds as race detectors", "7/C12"),
  "C13": ("exploration", "differential monitor: combined `view` invocation vs chain of single-option invocations through lossless npy pipes", "7/C13"),
  "C14": ("exploration", "metamorphic monitor: algebraic relations between recorded statistic values under fold/transpose/scale/monomorphic edits", "7/C14"),
